@@ -68,6 +68,20 @@ theorem un_log10 (a : F64) : (arith L).un [108, 111, 103, 49, 48] a = Rare.C11.L
   simp [arith, arithOf, unOf, prim, exactFn, notF]
 theorem un_log2 (a : F64) : (arith L).un [108, 111, 103, 50] a = Rare.C11.Log.log2 a := by
   simp [arith, arithOf, unOf, prim, exactFn, notF]
+theorem un_sin (a : F64) : (arith L).un [115, 105, 110] a = Rare.C19.Trig.sin a := by
+  simp [arith, arithOf, unOf, prim, exactFn, notF]
+theorem un_cos (a : F64) : (arith L).un [99, 111, 115] a = Rare.C19.Trig.cos a := by
+  simp [arith, arithOf, unOf, prim, exactFn, notF]
+theorem un_tan (a : F64) : (arith L).un [116, 97, 110] a = Rare.C19.Trig.tan a := by
+  simp [arith, arithOf, unOf, prim, exactFn, notF]
+theorem un_asin (a : F64) : (arith L).un [97, 115, 105, 110] a = Rare.C19.Trig.asin a := by
+  simp [arith, arithOf, unOf, prim, exactFn, notF]
+theorem un_acos (a : F64) : (arith L).un [97, 99, 111, 115] a = Rare.C19.Trig.acos a := by
+  simp [arith, arithOf, unOf, prim, exactFn, notF]
+theorem un_atan (a : F64) : (arith L).un [97, 116, 97, 110] a = Rare.C19.Trig.atan a := by
+  simp [arith, arithOf, unOf, prim, exactFn, notF]
+theorem un_exp2 (a : F64) : (arith L).un [101, 120, 112, 50] a = exp2 a := by
+  simp [arith, arithOf, unOf, prim, exactFn, notF]
 
 /-! ### small facts about values -/
 
